@@ -31,6 +31,8 @@ fn families() -> Vec<(&'static str, Vec<String>)> {
         ("trail_ascii_ws", s(&["foo  ", "bar\t", "baz ", "qux \t "])),
         ("trail_unicode_ws", s(&["foo\u{3000}", "bar\u{a0}", "baz\u{2003}", "qux\u{3000}\u{3000}"])),
         ("control", s(&["a\u{1b}[1mb", "nul\0x", "bell\u{7}", "cr\rx"])),
+        // a carriage return at the END of the line (a kept CR LF ending, or a bare CR): it is content
+        ("tail_cr", s(&["foo\r", "bar\r", "baz\r\r", "qux"])),
         ("long", (0..4).map(|i| format!("L{i}-{}", "x".repeat(10_000))).collect()),
         ("empty", s(&["", "a", " ", "b"])),
     ]
@@ -173,14 +175,15 @@ fn one(id: u64, v: &Value, seed: u64) -> Vec<Value> {
                         "diff" => {
                             let plain = text.clone();     // the diff renderer emits no colours; control bytes are content
                             let passed_shown = passed_commands.iter().any(|c| plain.contains(c.as_str()));
-                            let minus: Vec<&str> = plain.lines().filter(|l| l.starts_with('-') && !l.starts_with("--- ")).collect();
-                            let plus: Vec<&str> = plain.lines().filter(|l| l.starts_with('+') && !l.starts_with("+++ ")).collect();
+                            // split at LF only: a CR at the end of a rendered line is part of what is shown
+                            let minus: Vec<&str> = plain.split('\n').filter(|l| l.starts_with('-') && !l.starts_with("--- ")).collect();
+                            let plus: Vec<&str> = plain.split('\n').filter(|l| l.starts_with('+') && !l.starts_with("+++ ")).collect();
                             // expected -/+ lines of the main outcome; an embedded newline in a line cannot occur (lines are lines)
                             let exp_minus: Vec<String> = unmatched_diff.iter().map(|t| format!("-{prefix}{t}")).collect();
                             let mut exp_plus: Vec<String> = unexpected_diff.iter().map(|t| format!("+{prefix}{t}")).collect();
                             if other_kind == "invalid_exit_code" { exp_plus.push(format!("+{prefix}[3]")); }
                             // "\r" inside a line splits it for str::lines(); compare on joined text instead
-                            let norm = |v: Vec<String>| v.join("\n").replace('\r', "");
+                            let norm = |v: Vec<String>| v.join("\n");
                             let got_minus = minus.iter().map(|x| x.to_string()).collect::<Vec<_>>();
                             let got_plus = plus.iter().map(|x| x.to_string()).collect::<Vec<_>>();
                             let missing = (norm(exp_minus.clone()) != norm(got_minus)) as usize + (norm(exp_plus.clone()) != norm(got_plus)) as usize;
